@@ -184,6 +184,9 @@ func (f *frame) inlineCall(st *State, ins *ssa.Call, callee *ssa.Function, args 
 	nf.entry = st
 	base := len(st.facts)
 	work := st.clone()
+	for _, b := range callee.Blocks {
+		delete(work.iters, b)
+	}
 	nf.entry = st.clone()
 	ex.execBlock(nf, work, callee.Blocks[0], nil)
 	ex.inlinedFns[nf.key] = true
@@ -461,6 +464,11 @@ func (f *frame) builtin(st *State, ins *ssa.Call, b *ssa.Builtin, args []Val) Va
 		if m, ok := args[0].(VMap); ok && !m.Unknown {
 			return VInt{num(int64(len(m.Keys)))}
 		}
+		if m, ok := args[0].(VMap); ok {
+			n := app(ex.decls.fun("maplen", []string{SInt}, SInt), m.ID)
+			st.assume(tLe("0", n))
+			return VInt{n}
+		}
 		ex.note("abstracted: len of map in " + f.key)
 		n := ex.decls.fresh("maplen", SInt)
 		st.assume(tLe("0", n))
@@ -512,7 +520,7 @@ func (f *frame) appendOp(st *State, ins *ssa.Call, s, e VSlice) Val {
 		nm := append([]T(nil), sm...)
 		for i := int64(0); i < k.Int64(); i++ {
 			for ci := range nm {
-				nm[ci] = tStore(nm[ci], tAdd(tAdd(s.Off, s.Len), num(i)), tSel(em[ci], tAdd(e.Off, num(i))))
+				nm[ci] = tStore(nm[ci], tIdx(tAdd(s.Off, s.Len), num(i)), tSel(em[ci], tIdx(e.Off, num(i))))
 			}
 		}
 		st.mem[r] = nm
@@ -521,9 +529,9 @@ func (f *frame) appendOp(st *State, ins *ssa.Call, s, e VSlice) Val {
 	nm := ex.freshMem("app", s.Elem)
 	for ci := range nm {
 		st.assume(tForall("ap_", tImp(tAnd(tLe("0", "ap_"), tLt("ap_", s.Len)),
-			tEq(tSel(nm[ci], tAdd(s.Off, "ap_")), tSel(sm[ci], tAdd(s.Off, "ap_"))))))
+			tEq(tSel(nm[ci], tIdx(s.Off, "ap_")), tSel(sm[ci], tIdx(s.Off, "ap_"))))))
 		st.assume(tForall("ap_", tImp(tAnd(tLe("0", "ap_"), tLt("ap_", e.Len)),
-			tEq(tSel(nm[ci], tAdd(tAdd(s.Off, s.Len), "ap_")), tSel(em[ci], tAdd(e.Off, "ap_"))))))
+			tEq(tSel(nm[ci], tIdx(tAdd(s.Off, s.Len), "ap_")), tSel(em[ci], tIdx(e.Off, "ap_"))))))
 	}
 	st.mem[r] = nm
 	return out
@@ -594,6 +602,18 @@ func (p *Program) modsOfBlocks(fn *ssa.Function, blocks map[*ssa.BasicBlock]bool
 		}
 		for _, ins := range b.Instrs {
 			switch x := ins.(type) {
+			case *ssa.Alloc:
+				if n, ok := heapStructName(x.Type().(*types.Pointer).Elem()); ok && x.Heap && p.heapModelled(n) {
+					u := n.Underlying().(*types.Struct)
+					for i := 0; i < u.NumFields(); i++ {
+						m.fields[namedKey(n)+"."+u.Field(i).Name()] = true
+					}
+					for hk := range p.heapSorts {
+						if strings.HasPrefix(hk, namedKey(n)+".$") {
+							m.fields[hk] = true
+						}
+					}
+				}
 			case *ssa.Store:
 				switch r := root(x.Addr).(type) {
 				case *ssa.Alloc:
@@ -709,6 +729,7 @@ func (f *frame) loopEntry(st *State, li *loopInfo, ls *LoopSpec) bool {
 					arr[ci] = ex.decls.fresh("Hl_"+hk, s)
 				}
 				st.heap[hk] = arr
+				f.entryFrame(st, hk, arr)
 			}
 		}
 	}
@@ -819,6 +840,7 @@ func (f *frame) havocLike(st *State, v Val, t types.Type, hint string) Val {
 
 func (f *frame) loopBackEdge(st *State, li *loopInfo, ls *LoopSpec) {
 	ex := f.ex
+	f.runGhost(st, fmt.Sprintf("loop %d end", li.ordinal))
 	labels, terms, variant := f.invariants(st, li, ls)
 	if ex.mode.Functional || ex.mode.Safety {
 		for i, t := range terms {
